@@ -16,6 +16,8 @@ mod vo;
 mod va;
 #[path = "../validate_certs.rs"]
 mod vcert;
+#[path = "../validate_mut2.rs"]
+mod vm2;
 use pallas_traverse::Era;
 use pallas_validate::utils::MultiEraProtocolParameters as PP;
 use vc::*;
@@ -233,6 +235,65 @@ fn rules() -> Vec<(&'static str, bool, RuleMut)> {
     ]
 }
 
+/// Spend a second copy of a script-locked entry (new transaction id sorting after every other input, so the
+/// existing redeemer pointers keep their indices); its value goes to the first output. The redeemer list
+/// gets a second Spend entry: for the new input (`dup` = false, a valid two-script-input transaction) or a
+/// DUPLICATE of the existing pointer (`dup` = true: right length, one needed pointer missing).
+fn two_script_inputs(s: &mut Scen, dup: bool) -> bool {
+    if !s.has_scripts_era() { return false }
+    let (tagged, mut ins) = s.inputs();
+    let mut sorted = ins.clone(); sorted.sort();
+    // a script-locked spent entry with a Spend redeemer in list form
+    let Some(raw) = s.wget(5).cloned() else { return false };
+    let Some(reds) = arr_items(&raw) else { return false };   // map form (Conway) cannot hold a duplicate key
+    let mut found = None;
+    for (h, ix) in &ins {
+        let Some(p) = s.uentry(h, *ix) else { continue };
+        let Some(o) = parse_out(&s.utxo[p].out) else { continue };
+        if o.addr.is_empty() || (o.addr[0] >> 4) & 1 == 0 || (o.addr[0] >> 4) >= 8 { continue }
+        let idx = sorted.iter().position(|x| x == &(h.clone(), *ix)).unwrap() as u64;
+        if let Some(rp) = reds.iter().position(|rd| arr_items(rd).map(|p| p.len() == 4 && as_u64(&p[0]) == Some(0) && as_u64(&p[1]) == Some(idx)).unwrap_or(false)) { found = Some((p, o, idx, rp)); break }
+    }
+    let Some((p, o, _idx, rp)) = found else { return false };
+    let mut e = s.utxo[p].clone(); e.hash = vec![0xff; 32]; e.ix = 0;
+    if s.uentry(&e.hash, 0).is_some() { return false }
+    s.utxo.push(e);
+    ins.push((vec![0xff; 32], 0)); s.set_inputs(tagged, &ins);
+    let new_idx = ins.len() as u64 - 1;
+    // value of the copy goes to the first output
+    let mut outs = s.outputs(); if outs.is_empty() { return false }
+    outs[0].coin = outs[0].coin.saturating_add(o.coin);
+    if let Some(a) = &o.assets {
+        let dst = outs[0].assets.get_or_insert_with(Vec::new);
+        for (pol, names) in a { for (n, q) in names {
+            if let Some(pe) = dst.iter_mut().find(|x| &x.0 == pol) { if let Some(ne) = pe.1.iter_mut().find(|x| &x.0 == n) { ne.1 += q } else { pe.1.push((n.clone(), *q)); pe.1.sort() } }
+            else { dst.push((pol.clone(), vec![(n.clone(), *q)])); dst.sort() }
+        } }
+    }
+    s.set_outputs(&outs);
+    let mut l = reds.clone();
+    let mut parts = arr_items(&reds[rp]).unwrap();
+    if !dup { parts[1] = c_uint(new_idx) }
+    l.push(c_array(&parts));
+    s.wput(5, c_array(&l)); true
+}
+/// recompute the script-integrity hash of the scenario with the validator's exported functions
+fn fix_integrity_hash(s: &mut Scen) -> bool {
+    if s.get(11).is_none() { return false }
+    let h = materialize(s, |tx, _m, utxos, env| va::sdh_expected_of(&tx, utxos, env));
+    match h { Some(v) if !v.is_empty() => { s.put(11, c_bytes(&v[0])); true } _ => false }
+}
+/// a body-changing mutator changes the transaction size: the size-dependent rules (minimum fee, maximum size)
+/// are taken out of the way so that only the targeted rule is broken
+fn relax_size_fee(s: &mut Scen) {
+    match &mut s.env.pp {
+        PP::Shelley(p) => { p.minfee_a = 0; p.minfee_b = 0; p.max_transaction_size = u32::MAX }
+        PP::Alonzo(p) => { p.minfee_a = 0; p.minfee_b = 0; p.max_transaction_size = u32::MAX }
+        PP::Babbage(p) => { p.minfee_a = 0; p.minfee_b = 0; p.max_transaction_size = u32::MAX }
+        PP::Conway(p) => { p.minfee_a = 0; p.minfee_b = 0; p.max_transaction_size = u32::MAX }
+        _ => {}
+    }
+}
 fn family(label: &str) -> &str {
     match label { "no_extraneous_script" | "script_witnesses" | "mint_witnessed" => "scripts", "no_extraneous_datum" | "datum_witnesses" => "datums",
                   "validity_upper" | "validity_lower" | "ttl_present" => "validity", "collateral_present" | "collateral_in_utxo" => "collateral_in", _ => label.split('/').next().unwrap_or(label) }
@@ -241,7 +302,12 @@ fn info_of(s: &Scen, resigned: bool) -> Option<(Info, Oc)> {
     materialize(s, |tx, metx, utxos, env| {
         let o = observe(&tx, metx, utxos, env, &s.cs, None);
         let mem: u64 = metx.redeemers().iter().map(|r| r.ex_units().mem).fold(0u64, |a, b| a.saturating_add(b));
-        (Info { size: o.size, fee: metx.fee().unwrap_or(0), mem, ncoll: metx.collateral().len(), plutus: o.plutus_present, resigned }, o.e2e)
+        // "phase-2 scripts run": decided from the transaction itself, independently of the validator's own
+        // presence_of_plutus_scripts - a non-empty Plutus list in the witness set, or (reference scripts)
+        // redeemers in the witness set
+        let nonempty = |k: u64| s.wget(k).and_then(|raw| arr_items(untag(raw).1)).map(|l| !l.is_empty()).unwrap_or(false);
+        let plutus = nonempty(3) || nonempty(6) || nonempty(7) || (s.is_post_alonzo() && s.wget(5).is_some());
+        (Info { size: o.size, fee: metx.fee().unwrap_or(0), mem, ncoll: metx.collateral().len(), plutus, resigned }, o.e2e)
     })
 }
 
@@ -282,7 +348,13 @@ fn main() {
         n_cases += 1;
         if must_reject {
             if o.e2e == Oc::Ok {
-                emit_oracle_fail(&format!("not-rejected:{}:{}", fam, label), &format!("rule-breaking mutant accepted: rule={} {}", label, scen_text(s, fname)));
+                // one class has a single key: Conway transactions whose Plutus scripts are all reference scripts
+                // (no Plutus list in the witness set) with only collateral rules broken
+                let nonempty = |k: u64| s.wget(k).and_then(|raw| arr_items(untag(raw).1)).map(|l| !l.is_empty()).unwrap_or(false);
+                let only_coll = label.trim_start_matches("pair(").trim_end_matches(')').split('+').all(|l| l.starts_with("collateral"));
+                let key = if fam == "conway" && only_coll && !(nonempty(3) || nonempty(6) || nonempty(7)) { "not-rejected:conway:collateral@reference-scripts-only".to_string() }
+                          else { format!("not-rejected:{}:{}", fam, label) };
+                emit_oracle_fail(&key, &format!("rule-breaking mutant accepted: rule={} {}", label, scen_text(s, fname)));
             } else { n_rejected += 1 }
             if let Oc::Panic(m) = &o.e2e { emit_oracle_fail(&format!("panic:{}:{}", fam, label), &format!("panic={} {}", m, scen_text(s, fname))); }
         }
@@ -297,25 +369,59 @@ fn main() {
             if *body && !info.resigned && b.fam != Fam::Byron { continue }
             let mut s = clone_scen(b);
             if !m(&mut s, &mut rng, info) { continue }
-            if *body && b.fam != Fam::Byron { vm::resign(&mut s, &mut rng); }
+            if *body && b.fam != Fam::Byron { relax_size_fee(&mut s); vm::resign(&mut s, &mut rng); }
             *applied.entry(rule.to_string()).or_insert(0) += 1;
             run(&s, name, rule, &mut rng, true);
         }
     }
-    // random pairs
+    // two script inputs: the valid variant is a further accepted base, the duplicate-pointer variant must be rejected
+    let mut n_two = 0u64;
+    for (name, b, info) in &base {
+        if !info.resigned { continue }
+        for dup in [false, true] {
+            let mut s = clone_scen(b);
+            if !two_script_inputs(&mut s, dup) { continue }
+            fix_integrity_hash(&mut s);
+            relax_size_fee(&mut s);
+            vm::resign(&mut s, &mut rng);
+            if !dup {
+                // only a positive control when it is in fact accepted
+                if let Some((_, Oc::Ok)) = info_of(&s, true) { n_two += 1; run(&s, name, "two-script-inputs-accepted", &mut rng, false) }
+            } else {
+                *applied.entry("redeemer_coverage/duplicate_pointer".to_string()).or_insert(0) += 1;
+                run(&s, name, "redeemer_coverage/duplicate_pointer", &mut rng, true);
+            }
+        }
+    }
+    emit_stat("two_script_input_bases_accepted", n_two);
+    // random pairs (mutators calibrated on the transaction - size, fee, unit sums, collateral count - go last and
+    // are calibrated on the transaction as the first mutator left it)
+    let calibrated = |l: &str| matches!(l, "tx_size" | "min_fee" | "min_fee/per_byte" | "ex_units" | "collateral_count");
     for _ in 0..args.n {
         let k = rng.below(base.len() as u64) as usize; let (name, b, info) = &base[k];
-        let mut s = clone_scen(b); let mut labels: Vec<&'static str> = vec![]; let mut body = false; let mut tries = 0;
-        while labels.len() < 2 && tries < 30 {
+        let mut picks: Vec<&(&'static str, bool, RuleMut)> = vec![]; let mut tries = 0;
+        while picks.len() < 2 && tries < 30 {
             tries += 1;
-            let (rule, bd, m) = rng.pick(&rl);
-            if *bd && !info.resigned && b.fam != Fam::Byron { continue }
-            if labels.iter().any(|l: &&'static str| family(*l) == family(*rule)) { continue }   // two mutators of one rule family may cancel
-            if m(&mut s, &mut rng, info) { labels.push(*rule); body |= *bd }
+            let cand = rng.pick(&rl);
+            if cand.1 && !info.resigned && b.fam != Fam::Byron { continue }
+            if picks.iter().any(|p| family(p.0) == family(cand.0)) { continue }   // two mutators of one rule family may cancel
+            picks.push(cand);
         }
-        if labels.len() < 2 { continue }
+        if picks.len() < 2 { continue }
+        picks.sort_by_key(|p| calibrated(p.0));
+        let mut s = clone_scen(b); let mut body = false; let mut ok = true; let mut cur = info.clone();
+        for (n, p) in picks.iter().enumerate() {
+            if n == 1 {
+                if body && b.fam != Fam::Byron { vm::resign(&mut s, &mut rng); }
+                match info_of(&s, info.resigned) { Some((i2, _)) => cur = i2, None => { ok = false; break } }
+            }
+            if !(p.2)(&mut s, &mut rng, &cur) { ok = false; break }
+            if p.1 && b.fam != Fam::Byron { relax_size_fee(&mut s) }
+            body |= p.1;
+        }
+        if !ok { continue }
         if body && b.fam != Fam::Byron { vm::resign(&mut s, &mut rng); }
-        let label = format!("pair({}+{})", labels[0], labels[1]);
+        let label = format!("pair({}+{})", picks[0].0, picks[1].0);
         run(&s, name, &label, &mut rng, true);
     }
     for (k, v) in &applied { emit_stat(&format!("rule_mutants_{}", k), *v) }
